@@ -1026,9 +1026,9 @@ func runVALIDALL(c *Ctx, r *Result, rule string) int {
 // ---------------------------------------------------------------------------------------
 
 var f2iExceptions = map[string]string{
-	"jsonata.evalRange:int#1":    "[value] both bounds were tested with isInteger (a non-integer bound is the error ErrNonIntegerLHS/RHS a few lines above), so their difference is integral",
-	"jlib.callMatchFunc:int#1":   "[protocol] the offsets of a match object: matchCallable writes them from int values; a user-defined matcher that returns fractions gets them truncated, which no property speaks about",
-	"jlib.callMatchFunc:int#2":   "[protocol] as #1",
+	"jsonata.evalRange:int#1":  "[value] both bounds were tested with isInteger (a non-integer bound is the error ErrNonIntegerLHS/RHS a few lines above), so their difference is integral",
+	"jlib.callMatchFunc:int#1": "[protocol] the offsets of a match object: matchCallable writes them from int values; a user-defined matcher that returns fractions gets them truncated, which no property speaks about",
+	"jlib.callMatchFunc:int#2": "[protocol] as #1",
 }
 
 func isFloatT(t types.Type) bool {
@@ -1256,7 +1256,7 @@ func runSORTTYPES(c *Ctx, r *Result, rule string) int {
 		if rec == nil {
 			o.Verdict, o.Reason = Finding, "the mixed-type error of a sort term is not decided from a per-term record kept over all items (a slice made here and indexed by the term): comparing with the neighbouring item only misses mixed keys separated by an item without the key, and lt panics on them"
 		} else {
-			o.Verdict, o.Reason = Discharged, "the error is controlled by the per-term record " + rec.X.Name() + "[" + rec.Index.Name() + "]"
+			o.Verdict, o.Reason = Discharged, "the error is controlled by the per-term record "+rec.X.Name()+"["+rec.Index.Name()+"]"
 			records[rec.X.Type().String()] = true
 			recordIdx = append(recordIdx, rec.Index)
 		}
@@ -1319,7 +1319,7 @@ func runSORTTYPES(c *Ctx, r *Result, rule string) int {
 		if mono {
 			o.Verdict, o.Reason = Discharged, "the record only ever goes from unset to set"
 		} else {
-			o.Verdict, o.Reason = Finding, "the per-term type record is overwritten with a computed value (" + describeVal(st.Val) + "): it then remembers the latest item only, and an item without the key resets it"
+			o.Verdict, o.Reason = Finding, "the per-term type record is overwritten with a computed value ("+describeVal(st.Val)+"): it then remembers the latest item only, and an item without the key resets it"
 		}
 		r.Add(o)
 	}
@@ -1377,7 +1377,7 @@ func runNEGFOLD(c *Ctx, r *Result, rule string) int {
 		if bad == "" {
 			o.Verdict, o.Reason = Discharged, "the optimised negation is a NegationNode (checked at evaluation time) or a folded number literal"
 		} else {
-			o.Verdict, o.Reason = Finding, "the optimiser replaces a negation by " + bad + ": the operand-type check of unary minus in evalNegation is optimised away"
+			o.Verdict, o.Reason = Finding, "the optimiser replaces a negation by "+bad+": the operand-type check of unary minus in evalNegation is optimised away"
 		}
 		r.Add(o)
 	}
@@ -1443,7 +1443,7 @@ func runARGPOS(c *Ctx, r *Result, rule string) int {
 			if ok {
 				o.Verdict, o.Reason = Discharged, "the reported position is the index in the argument list plus one"
 			} else {
-				o.Verdict, o.Reason = Finding, "the argument position reported by an ArgTypeError is not the index in the argument list plus one: " + why
+				o.Verdict, o.Reason = Finding, "the argument position reported by an ArgTypeError is not the index in the argument list plus one: "+why
 			}
 			r.Add(o)
 		}
